@@ -189,6 +189,20 @@ def c07_shape(src, names, seed=0):
     return {"expression": expr, "violates": False, "tried": len(combos)}
 
 
+def c07_grouped(expr, want):
+    from flow.record import GroupedRecord, RecordDescriptor
+    from flow.record.selector import CompiledSelector, Selector
+
+    g = GroupedRecord("c07/grp", [RecordDescriptor("c07/ma", [("string", "a1")])(a1="ay"), RecordDescriptor("c07/mb", [("string", "b2")])(b2="bee")])
+    out = []
+    for cls in (Selector, CompiledSelector):
+        try:
+            out.append(bool(cls(expr).match(g)))
+        except Exception as e:
+            out.append("raise " + type(e).__name__)
+    return {"violates": out != [want, want], "detail": None if out == [want, want] else f"{expr!r} on a grouped record: interpreted / compiled give {out}, the documented answer is {want}"}
+
+
 def c07_reject(expr):
     r = _run("Selector", expr, _rec())
     return {"expression": expr, "Selector": r, "violates": r[0] == "val"}
@@ -285,4 +299,4 @@ def c07_differential(seed, n):
     return {"violates": False, "cases": cases}
 
 
-CALLS = {"c07_eval": c07_eval, "c07_expr": c07_expr, "c07_shape": c07_shape, "c07_reject": c07_reject, "c07_table": c07_table, "c07_sequence": c07_sequence, "c07_differential": c07_differential}
+CALLS = {"c07_grouped": c07_grouped, "c07_eval": c07_eval, "c07_expr": c07_expr, "c07_shape": c07_shape, "c07_reject": c07_reject, "c07_table": c07_table, "c07_sequence": c07_sequence, "c07_differential": c07_differential}
